@@ -385,7 +385,7 @@ async fn fabitn(
     n: usize,
     l: usize,
     shared_two_by_two: &mut [Vec<Option<ChaCha20Rng>>],
-    multi_shared_rand: &mut ChaCha20Rng,
+    _multi_shared_rand: &mut ChaCha20Rng,
 ) -> Result<Vec<Share>, Error> {
     debug!("PI_aBit^n protocol of WRK17b");
     // Step 1) Pick random bit-string x of length lprime.
@@ -464,8 +464,14 @@ async fn fabitn(
 
     // Step 2) Run 2-party OTs to compute keys and MACs [input parameters mm and kk].
 
+    // The test combinations must not be known before the pairwise correlations under test exist:
+    // a party that knows them in advance can use bit vectors towards different peers whose
+    // difference is orthogonal to every combination, and pass. They are therefore expanded from
+    // a coin toss made now, after the OTs, and not from the generator that was seeded at the
+    // start of the preprocessing.
+    let mut test_rand = shared_rng(channel, i, n).await?;
     // Seed a faster AesRng from the shared chacha rng
-    let mut aes_rand = AesRng::from_seed(multi_shared_rand.random());
+    let mut aes_rand = AesRng::from_seed(test_rand.random());
     // Step 3) Verification of MACs and keys.
     // Step 3 a) Sample 3 * RHO random l'-bit strings r.
     // We sample whole Blocks as this requires less memory and is faster than sampling
